@@ -20,7 +20,8 @@ RULE = ("Each case = a generated pair configuration: offerer = 0-4 transceivers 
         "is 'connected' when the exchange covers everything the peer owns. The small sub-space (<= 2 transceivers, no "
         "preferences, <= 1 channel) is enumerated completely in the thorough tier. Distinct/non-trivial = distinct "
         "configuration tuples with >= 2 m-sections or an answerer-side extra."
-        ' A third of the random cases lose the k-th DTLS handshake datagram of the server or client side (fault injected at _write_ssl); every reliable channel additionally carries a burst of empty, non-ASCII, 20 000-character and 58 KiB binary messages each way (exactly once, in order when ordered). Wall-clock caps decide only when a heartbeat task shows the loop was alive.')
+        ' A third of the random cases lose the k-th DTLS handshake datagram of the server or client side (fault injected at _write_ssl); every reliable channel additionally carries a burst of empty, non-ASCII, 20 000-character and 58 KiB binary messages each way (exactly once, in order when ordered). Wall-clock caps decide only when a heartbeat task shows the loop was alive.'
+        ' Foreign offers also come from an offerer that offers less (some rtcp-fb / extmap lines absent) or maps PCMU/PCMA/G722 onto dynamic payload types; the loss plan may instead drop one SCTP set-up packet (INIT, INIT ACK, COOKIE ECHO, COOKIE ACK).')
 ASSUMPTIONS = [
     "answerer-side codec preferences are supersets / permutations of the capabilities, so an empty codec intersection cannot occur (that would legitimately raise OperationError)",
     "real aioice over local UDP, real DTLS, real time; a transport still checking/connecting at the 20 s cap is inconclusive, failed/closed is a violation",
